@@ -1,10 +1,10 @@
 """Boring reference models (documentation-derived) shared by the call-history checks."""
 
 STRICT, NASM, SMART = 0, 1, 2
-VALS = (STRICT, NASM, SMART, 99)
+VALS = (STRICT, NASM, SMART, 3, -1, 99)     # the three documented values and out-of-range ones (adjacent, negative, far)
 SETTERS = ("m", "w", "b", "s", "a")   # asm_mov_imm, asm_sib_index_base_swap, asm_sib_no_base, asm_sib, asm_set_all
 INIT = (SMART, NASM, NASM)            # a new instance: SMART / NASM / NASM
-NAMES = {0: "STRICT", 1: "NASM", 2: "SMART", 99: "99"}
+NAMES = {0: "STRICT", 1: "NASM", 2: "SMART", 3: "3", -1: "-1", 99: "99"}
 
 
 def opt_step(state, setter, v):
